@@ -190,6 +190,9 @@ PROPS["C12"] = {
 ATTACH["C15"] = {"ac": [("src/graph/mod.rs", "model.rs"), ("src/graph/convert.rs", "convert_ac.rs")]}
 PROPS["C15"] = {
     "harnesses": [
+        H("c15_rev_reciprocal_ds", "ac", "reverse on a 2-node directed single-edge graph with a reciprocal pair of arbitrary f64 weights: the weights swap direction", covers=["different weights"], bounds="2 nodes, 2 edges", timeout=1500),
+        H("c15_rev_reciprocal_dm", "ac", "same on the directed multi-edge kind", covers=["different weights"], bounds="2 nodes, 2 edges", timeout=1500),
+    ] + [
         H(name, "ac", what, tier=tier, covers=covers, bounds="3 nodes, <=3 stored edges in the source graph, unwind 9", timeout=1500)
         for (name, call, tier, covers, what) in _gen.c15_cases()
     ],
@@ -254,6 +257,17 @@ PROPS["C18"] = {
     "outside": "graphs with more than 2 nodes; max_iter > 2; the approximate-fixed-point clause (one further step moves the vector by at most the tolerance-derived bound); tolerances other than 1e-6 / 1e-2; f64::powf(x, 2.0) stubbed as x*x",
     "assumptions": ["f64::powf(x, 2.0) is stubbed as x*x", "graphs are produced by build_direct"],
     "jobs": 5,
+}
+
+# ---------------------------------------------------------------- C19
+ATTACH["C19"] = {"ac": [("src/readwrite/graphml.rs", "graphml_ac.rs")]}
+PROPS["C19"] = {
+    "harnesses": [
+        H("c19_node_handler_4", "ac", "add_node(<node + 4 symbolic bytes from an 8-letter alphabet>)", covers=["an error was returned"], bounds="4 symbolic bytes", timeout=1500),
+        H("c19_node_handler_6", "ac", "add_node(<node + 6 symbolic bytes>)", tier="thorough", covers=["a node was read", "an error was returned"], bounds="6 symbolic bytes", timeout=3000),
+    ],
+    "outside": "everything but the element handlers",
+    "jobs": 2,
 }
 
 # ---------------------------------------------------------------- C20
